@@ -95,7 +95,7 @@ static void jv_dump(struct json_object *o)
 		double d = json_object_get_double(o); uint64_t bits; memcpy(&bits, &d, 8);
 		if (d != d) bits = 0x7ff8000000000000ull;   /* collapse NaN payloads */
 		printf("d%016llx", (unsigned long long)bits);
-		if (o->_to_json_string == json_object_userdata_to_json_string && o->_userdata) {
+		if (o->_userdata && o->_user_delete == json_object_free_userdata) {   /* json_object_new_double_s */
 			putchar(':'); puthex((unsigned char *)o->_userdata, strlen((char *)o->_userdata));
 		}
 		break; }
